@@ -19,7 +19,7 @@ THEOREMS = ['C04_no_panic', 'C04_refused_push_unchanged', 'C04_push_acceptance',
 def streams(tier):
     if tier == 'quick': return [Stream('C04', 300)]
     if tier == 'search': return [Stream('C04', 1500)]
-    return [Stream('C04', 3000), Stream('C04', 1000, release=True)]
+    return [Stream('C04', 3000), Stream('C04', 1000, release=True), Stream('C04', 300, f32=True)]
 
 def fls(bits, st):
     fm = Fmt(st.f32 if st is not None else False)
